@@ -49,6 +49,14 @@ static lzma_ret lzma_stream_encoder(lzma_stream *s, const lzma_filter *f, lzma_c
 	return LZMA_OK;
 }
 
+/* decoder resource queries (ignored by the toy codec; see gen_limits.c) */
+#define LZMA_TELL_NO_CHECK 0x01U
+#define LZMA_TELL_UNSUPPORTED_CHECK 0x02U
+#define LZMA_TELL_ANY_CHECK 0x04U
+#define LZMA_CONCATENATED 0x08U
+static uint64_t lzma_easy_decoder_memusage(uint32_t preset) { (void)preset; return UINT64_C(68222976); }
+static uint64_t lzma_physmem(void) { return UINT64_C(1) << 33; }
+
 static lzma_ret lzma_stream_decoder(lzma_stream *s, uint64_t memlimit, uint32_t flags)
 {
 	(void)memlimit; (void)flags;
